@@ -231,17 +231,40 @@ func (p *Program) usesThroughCells(v ssa.Value) []ssa.Instruction {
 }
 
 func (p *Program) resetDominatesUses(v ssa.Value, reset string, fn *ssa.Function) bool {
+	return p.resetDominatesUsesDepth(v, reset, 0)
+}
+
+func (p *Program) resetDominatesUsesDepth(v ssa.Value, reset string, depth int) bool {
 	var resets []ssa.Instruction
+	isReset := map[ssa.Instruction]bool{}
 	uses := p.usesThroughCells(v)
 	for _, u := range uses {
-		if c, ok := u.(ssa.CallInstruction); ok && calleeName(c) == reset {
+		c, ok := u.(ssa.CallInstruction)
+		if !ok {
+			continue
+		}
+		if calleeName(c) == reset {
 			resets = append(resets, u)
+			isReset[u] = true
+			continue
+		}
+		// handed to a module function that resets it before any other use (the Reset was moved into the callee)
+		if callee := c.Common().StaticCallee(); callee != nil && !c.Common().IsInvoke() && p.InModule(callee) && depth < 3 && len(callee.Blocks) > 0 {
+			for i, a := range c.Common().Args {
+				if i < len(callee.Params) && (a == v || p.sameValue(a, v)) && p.resetDominatesUsesDepth(callee.Params[i], reset, depth+1) {
+					resets = append(resets, u)
+					isReset[u] = true
+				}
+			}
 		}
 	}
 	if len(resets) == 0 {
 		return false
 	}
 	for _, u := range uses {
+		if isReset[u] {
+			continue
+		}
 		if c, ok := u.(ssa.CallInstruction); ok && (calleeName(c) == reset || calleeName(c) == "(*sync.Pool).Put") {
 			continue
 		}
